@@ -17,6 +17,12 @@ P = "param.parameterized."
 
 
 def run(ctx):
+    from checks.c03 import queue_rewriters
+    ctx.rule("R07.j", "who may take something out of the batch queues (shared with R03.j): _update_deps hands the queue slot of a replaced dynamic watcher to the rebuilt one, so a function outside the frozen table of queue managers that removes a queued watcher (unwatch, say) loses the pending update of a leaf whose parent was replaced in the same batch", floor=2)
+    queue_rewriters(ctx, "R07.j")
+    from checks import depends_model as _dm
+    ctx.rule("R07.m", "_resolve_mcs_deps model (shared with R06.m): every dependency handed in comes back, in order -- two links of one path that carry the same class-level Parameter object (per_instance=False) on two instances included: each is a watch point, and dropping the intermediate one means a replaced sub-object is not followed", floor=1)
+    _dm.report_resolve_mcs(ctx, "R07.m")
     ctx.rule("R07.a", "depends model, sub-path filter: for every ordered list of 1..3 dependencies out of sub.x / sub.y / sub.x:bounds / sub.subsub.z / sub.param, every watcher _watch_group installs "
                       "and every event it can receive (the sub-object replaced by one equal in all values / differing in x / y / z / the bounds of x / the attached grandchild; the grandchild "
                       "replaced; a leaf assigned), the callback built by _m_caller is interpreted: the method runs iff a value reached through one of the dependencies sharing that watcher changed, "
